@@ -340,6 +340,32 @@ func forRuleSpecs(c *enumx.Ctx, visit func(c *enumx.Ctx, s spec)) {
 			}
 		}
 	}
+	// every small integer (tables keyed by small numbers: errno names, message types, file
+	// types, arches) for one representative of each numeric field class
+	for _, f := range []string{"exit", "msgtype", "a0", "pid", "inode", "success", "devmajor", "filetype", "pers", "saddr_fam", "auid", "gid"} {
+		hi := 1100
+		if f == "msgtype" || f == "exit" {
+			hi = 4200
+		}
+		if c.Tier != "thorough" && hi > 1100 {
+			hi = 2200
+		}
+		for v := 0; v <= hi; v++ {
+			for _, neg := range []bool{false, true} {
+				if neg && f != "exit" && f != "a0" {
+					continue
+				}
+				if !c.Mine() {
+					continue
+				}
+				val := strconv.Itoa(v)
+				if neg {
+					val = "-" + val
+				}
+				visit(c, spec{List: listFor(f), Action: "always", Filters: []filt{{false, f, "=", val}}})
+			}
+		}
+	}
 	// -F key=... as a filter (single key through the filter path)
 	for _, v := range []string{"k", "a,b", strings.Repeat("k", 256), strings.Repeat("k", 257)} {
 		if !c.Mine() {
